@@ -48,7 +48,7 @@ COMMON_FRAMES = [U('pyvc.frames', 'render_write_frame', 'render.write_frame'),
                  # every property at once
                  U('pyvc.frames', 'digest_reads_frame', 'digest.reads_frame'),
                  U('pyvc.frames', 'digest_injective', 'digest.distinguishes_options')]
-S_MORE = [K("k3::S-Switch"), K("k3::S-Case-Condition"), K("k3::S-Switch-nested")]
+S_MORE = [K("k3::S-Switch"), K("k3::S-Case-Condition"), K("k3::S-Switch-nested"), K("k3::S-Case-OnError")]
 S_COMMENT = [K("k3::S-Comment-noninterp"), K("k3::S-Comment-drop"), K("k3::S-Comment-interp")]
 TAL_BASIC = [K("k3::S-Define"), K("k3::S-Define-clauses"), K("k3::S-Define-tuple"), K("k3::S-Condition"), K("k3::S-Content"),
              K("k3::S-Replace"), K("k3::S-Structure"), K("k3::S-OmitTag"),
